@@ -74,6 +74,12 @@ struct SwitchInner {
     start: tokio::time::Instant,
     record_shreds: bool,
     pub shred_log: Vec<(usize, usize, Arc<Vec<u8>>)>,
+    /// number of messages routed per (interface, destination validator)
+    pub per_dest: HashMap<(Iface, usize), u64>,
+    /// repair traffic beyond this many messages is dropped and flagged (message-storm guard)
+    repair_cap: u64,
+    repair_msgs: u64,
+    pub repair_storm: bool,
 }
 
 pub struct Switch {
@@ -93,6 +99,10 @@ impl Switch {
                 start: tokio::time::Instant::now(),
                 record_shreds: false,
                 shred_log: Vec::new(),
+                per_dest: HashMap::new(),
+                repair_cap: 60_000,
+                repair_msgs: 0,
+                repair_storm: false,
             }),
         })
     }
@@ -122,6 +132,14 @@ impl Switch {
         g.counter += 1;
         g.sent += 1;
         let c = g.counter;
+        *g.per_dest.entry((iface, to_v)).or_default() += 1;
+        if matches!(iface, Iface::RepairRequester | Iface::RepairResponder) {
+            g.repair_msgs += 1;
+            if g.repair_msgs > g.repair_cap {
+                g.repair_storm = true;
+                return;
+            }
+        }
         let t_ms = g.start.elapsed().as_millis() as u64;
         if iface == Iface::All2All {
             g.log_consensus.push(LogEntry { t_ms, from, to: to_v, iface, bytes: bytes.clone() });
@@ -157,6 +175,18 @@ impl Switch {
 
     pub fn take_shred_log(&self) -> Vec<(usize, usize, Arc<Vec<u8>>)> {
         std::mem::take(&mut self.inner.lock().unwrap().shred_log)
+    }
+
+    pub fn repair_storm(&self) -> bool {
+        self.inner.lock().unwrap().repair_storm
+    }
+
+    pub fn repair_messages(&self) -> u64 {
+        self.inner.lock().unwrap().repair_msgs
+    }
+
+    pub fn routed_to(&self, iface: Iface, v: usize) -> u64 {
+        self.inner.lock().unwrap().per_dest.get(&(iface, v)).copied().unwrap_or(0)
     }
 
     pub fn counters(&self) -> (u64, u64) {
